@@ -10,21 +10,21 @@ TECHNIQUE = {
  "C02": "static: symbolic count identities over guard atoms (emission grammar of every serialiser), callee summaries at use sites, guard/ordering typestate of CdnsExporter",
  "C03": "static: decoder-window typestate, guard dominance of subscripts and cursor moves, taint-to-allocation, call-graph SCCs (devirtualised through owning members), interval analysis over everything the tools reach, reference/iterator invalidation by container growth, cursor-progress rule, exception-discipline rules",
  "C04": "static: control dependence (guard dominance) of hint-bit tests over member assignments and block-table insertions",
- "C05": "static: Fresh/Stale typestate on the decoder window, abstract interpretation of the refill (m_p ? m_end), handler search over the read call graph",
+ "C05": "static: Fresh/Stale typestate on the decoder window, abstract interpretation of the refill (m_p ? m_end), handler search over the read call graph, no input access between a decoded block and its return (call-graph reachability of the refill)",
  "C06": "static: cell-wise partial evaluation of write_int (value and free-space partitions), flush-threshold vs argument-range comparison, affine relation analysis of the string copy (path exploration with case splits; ghost byte counter with loop invariants), structural buffer discipline",
  "C07": "static: finite-domain tabulation of skip_item (8 major types x 7 classes of additional information) and of read_int (byte -> bit-position maps), caller/callee belief agreement on the stop code, interval analysis, reference invalidation on the level stack",
  "C08": "static: sibling cross-check of all map/array readers against one consumption discipline on the structured CFG",
- "C09": "static: writer/reader table agreement + RFC 8618 tables + reset-state dataflow + width rule",
+ "C09": "static: writer/reader table agreement + RFC 8618 tables + reset-state dataflow + width rule + taint rule (no reader-only value-dependent rejection)",
  "C10": "static: additive-flow dataflow of returned byte counts (carriers, drains, per-return coverage, overwrites), primitive return/stored-bytes agreement, who-may-call",
  "C11": "static: type/record facts (unique object representations, layout), hash-vs-equality member sets incl. presence of optional members, structural rules on BlockTable and on what clear() resets",
  "C12": "static: structural rules and guard normal forms over the buffering functions",
  "C13": "static: must-precede / who-may-call ordering over the rotate path (incl. explicitly instantiated templates)",
- "C14": "static: loop/ordering structure of the compressed writers, parameter dependence of stack array bounds",
- "C15": "static: ordering invariant (must-precede) + destruction order derived from record facts and destructor bodies",
+ "C14": "static: loop/ordering structure of the compressed writers, finite tabulation of the accepted return codes, API rule on partial compressor resets, parameter dependence of stack array bounds",
+ "C15": "static: ordering invariant (must-precede) + destruction order derived from record facts and destructor bodies, path-expression equality of the opened and the renamed name (cached path members expanded under a no-output-open condition)",
  "C16": "static: error-discipline rules over the call graph from rotate_output (swallowing handlers, unchecked OS/stream results, reachability of the delegate on exceptional exits), rotation re-initialises the state that frames the next output",
  "C17": "static: interval analysis (incl. lossy implicit conversions on the way to a comparison), finite order-abstraction table of the comparison operators, must-precede rules",
  "C18": "static: guard dominance of associative operator[] reads, ordering, unconditional remap, first-readable reference and per-iteration try isolation in the tool mains",
- "C19": "static: ownership/borrowing rule over special-member facts, member completeness of copy operations",
+ "C19": "static: ownership/borrowing rule over special-member facts (rebuild or copy-and-swap of every member), member completeness of copy operations",
  "C20": "static: effect analysis (static-storage declarations, external-callee allow/deny list, pointer-origin rule, released descriptors are not kept)",
 }
 NOT_APPLICABLE = {}
@@ -58,7 +58,7 @@ man = {
               "baseline_off_cmd": "cmake -S /repo -B /repo/_build -G Ninja -DBUILD_TESTS=ON -DBUILD_DOC=OFF >/dev/null && cmake --build /repo/_build && ctest --test-dir /repo/_build -j8 --timeout 900",
               "source_commits": [], "add_only": True},
     "engines": [{"name": "cdnsverif", "path": "cdnsverif/", "serves_properties": [c["property_id"] for c in checks],
-                 "kind_free_text": "clang-14 libTooling extractor (tool/cdns-facts.cc) producing a JSON mini-IR of the type-checked program; IR normalisation (inlining of helpers/lambdas/forwarders, forward substitution, conditional lifting, algorithm loops) with controls checked on every run; python3 rule engine deciding per-property obligations; exit 0/1/2"}],
+                 "kind_free_text": "clang-14 libTooling extractor (tool/cdns-facts.cc) producing a JSON mini-IR of the type-checked program; flattening of intermediate base classes; IR normalisation (inlining of helpers/lambdas/forwarders/tail delegation, forward substitution, conditional lifting, algorithm loops, *p++ splitting, local memo elimination, scope guards, aggregate projection) with controls checked on every run; positive controls for zero-expected rules (tu/rule_controls.cpp); python3 rule engine deciding per-property obligations; exit 0/1/2"}],
     "checks": checks,
     "not_applicable": na,
     "notes": "Static analysis only. exit 2 = ANALYSIS-BROKEN (never a VIOLATION line). known_findings.json lists genuine defects; fix: commits in /repo are recorded there as fixed.",
